@@ -95,6 +95,7 @@ void sb_hexn(vh_sb *s, const void *p, size_t n, size_t maxn); /* truncated with 
 /* Each arena: [PROT_NONE page][data VH_G_DATA bytes][PROT_NONE page]. */
 #define VH_G_ARENAS 10
 #define VH_G_DATA (64 * 1024)
+extern int vh_fork_each_case;
 void vh_guard_init(void);
 /* Buffer of n bytes in arena a whose end is as close as possible to the
  * trailing guard page subject to (addr % 64) == mis (mis<0: exact end, no
